@@ -135,6 +135,10 @@ def svcJoinsDefault : Val → Bool
 
 def mapVals (f : Val → Val) (kvs : KVs) : KVs := kvs.map fun kv => (kv.1, f kv.2)
 
+/-- update the values of existing keys in place (`m[k] = f(m[k])` for keys that are present); on the
+association lists with distinct keys that represent Go maps this is exactly a sequence of such stores -/
+def mapAt (f : String → Val → Val) (kvs : KVs) : KVs := kvs.map fun kv => (kv.1, f kv.1 kv.2)
+
 def declaredNetworks (d : KVs) : KVs :=
   match lookup "networks" d with
   | some (.map n) => n
@@ -145,10 +149,14 @@ def usesDefaultNetwork (d : KVs) : Bool :=
   | some (.map svcs) => svcs.any fun kv => svcJoinsDefault kv.2
   | _ => false
 
-def nnServices (d : KVs) : KVs :=
-  match lookup "services" d with
-  | some (.map svcs) => insert "services" (.map (mapVals nnServiceV svcs)) d
-  | _ => d
+def nnTop (k : String) (v : Val) : Val :=
+  if k = "services" then
+    match v with
+    | .map svcs => .map (mapVals nnServiceV svcs)
+    | v => v
+  else v
+
+def nnServices (d : KVs) : KVs := mapAt nnTop d
 
 def nnNetworks (d : KVs) : KVs :=
   let nets := declaredNetworks d
@@ -188,10 +196,9 @@ def depEntry (restart : Bool) : Val :=
 /-- `if _, ok := dependsOn[k]; !ok { dependsOn[k] = e }` -/
 def addDep (k : String) (e : Val) (deps : KVs) : KVs := setIfAbsent k e deps
 
-def pullPolicy (s : KVs) : KVs :=
-  match lookup "pull_policy" s with
-  | some (.str p) => if p = "if_not_present" then insert "pull_policy" (.str "missing") s else s
-  | _ => s
+def pullPolicyV : Val → Val
+  | .str p => if p = "if_not_present" then .str "missing" else .str p
+  | v => v
 
 def normBuildArgs (env : Env) (b : KVs) : KVs :=
   match lookup "args" b with
@@ -209,15 +216,9 @@ def dockerfileDefault (b : KVs) : KVs :=
 def normBuild (env : Env) (b : KVs) : KVs :=
   normBuildArgs env (dockerfileDefault (setIfNil "context" (.str ".") b))
 
-def normBuildSvc (env : Env) (s : KVs) : KVs :=
-  match lookup "build" s with
-  | some (.map b) => insert "build" (.map (normBuild env b)) s
-  | _ => s
-
-def normEnvironment (env : Env) (s : KVs) : KVs :=
-  match lookup "environment" s with
-  | some e => insert "environment" (resolve env true e).1 s
-  | none => s
+def normBuildV (env : Env) : Val → Val
+  | .map b => .map (normBuild env b)
+  | v => v
 
 def depsOfLinks (links : List Val) (deps : KVs) : KVs :=
   links.foldl (fun acc l => addDep (linkTarget (strOf l)) (depEntry true) acc) deps
@@ -259,10 +260,17 @@ def cleanVolume (clean : String → String) : Val → Val
   | .map vol => .map (insert "target" (.str (clean (strOf ((lookup "target" vol).getD .null)))) vol)
   | v => v
 
-def normVolumes (clean : String → String) (s : KVs) : KVs :=
-  match lookup "volumes" s with
-  | some (.seq vols) => insert "volumes" (.seq (vols.map (cleanVolume clean))) s
-  | _ => s
+def normVolumesV (clean : String → String) : Val → Val
+  | .seq vols => .seq (vols.map (cleanVolume clean))
+  | v => v
+
+/-- the attributes of a service that the loop rewrites in place -/
+def svcAttr (clean : String → String) (env : Env) (k : String) (v : Val) : Val :=
+  if k = "pull_policy" then pullPolicyV v
+  else if k = "build" then normBuildV env v
+  else if k = "environment" then (resolve env true v).1
+  else if k = "volumes" then normVolumesV clean v
+  else v
 
 def setDeps (deps : KVs) (s : KVs) : KVs :=
   match deps with
@@ -271,17 +279,20 @@ def setDeps (deps : KVs) (s : KVs) : KVs :=
 
 /-- one iteration of the loop over `services` -/
 def normService (clean : String → String) (env : Env) (s : KVs) : KVs :=
-  let s1 := normEnvironment env (normBuildSvc env (pullPolicy s))
-  setDeps (impliedDeps s) (normVolumes clean s1)
+  setDeps (impliedDeps s) (mapAt (svcAttr clean env) s)
 
 def normServiceV (clean : String → String) (env : Env) : Val → Val
   | .map s => .map (normService clean env s)
   | v => v
 
-def normServices (clean : String → String) (env : Env) (d : KVs) : KVs :=
-  match lookup "services" d with
-  | some (.map svcs) => insert "services" (.map (mapVals (normServiceV clean env) svcs)) d
-  | _ => d
+def nsTop (clean : String → String) (env : Env) (k : String) (v : Val) : Val :=
+  if k = "services" then
+    match v with
+    | .map svcs => .map (mapVals (normServiceV clean env) svcs)
+    | v => v
+  else v
+
+def normServices (clean : String → String) (env : Env) (d : KVs) : KVs := mapAt (nsTop clean env) d
 
 /-- assertions of the loop body -/
 def shapeVolume : Val → Bool
@@ -351,13 +362,14 @@ def nameResource (proj : Option Val) (key : String) : Val → Val
   | .null => .map (nameResourceKVs proj key [])
   | v => v
 
-def nameSection (proj : Option Val) (d : KVs) (r : String) : KVs :=
-  match lookup r d with
-  | some (.map top) => insert r (.map (top.map fun kv => (kv.1, nameResource proj kv.1 kv.2))) d
-  | _ => d
+def nameSectionV (proj : Option Val) : Val → Val
+  | .map top => .map (mapAt (nameResource proj) top)
+  | v => v
 
-def setNames (d : KVs) : KVs :=
-  resourceNames.foldl (nameSection (lookup "name" d)) d
+def namesTop (proj : Option Val) (k : String) (v : Val) : Val :=
+  if resourceNames.contains k then nameSectionV proj v else v
+
+def setNames (d : KVs) : KVs := mapAt (namesTop (lookup "name" d)) d
 
 def shapeResource : Val → Bool
   | .null => true
